@@ -19,6 +19,44 @@ LABEL_DEFS = ufun('LABEL_DEFS', V, Str, Int, Int)     # number of label statemen
 LABEL_USES = ufun('LABEL_USES', V, Str, Int, Int)     # number of jumps to l among the first k statements
 
 
+USED = ufun('USED', V, Str, Bool)                 # the name occurs in the expression as a variable or a called function
+ARGS_USED = ufun('ARGS_USED', V, Str, Int, Bool)  # ... in one of the first k expressions of the argument list
+STMTS_USED = ufun('STMTS_USED', V, Str, Int, Bool)  # ... in the expression of one of the first k statements
+
+
+def used_def(e, n):
+    """USED(e, n) unfolded once (written from the model schema: variable, binary, unary, group, function)"""
+    k = key_of(e)
+    fn = _sub(e, 'function')
+    args = MH.dget(V.dref(fn), z3.StringVal('args'))
+    return z3.If(k == z3.StringVal('variable'), n == V.s(_sub(e, 'variable')),
+           z3.If(k == z3.StringVal('binary'), z3.Or(USED(_sub(e, 'binary', 'left'), n), USED(_sub(e, 'binary', 'right'), n)),
+           z3.If(k == z3.StringVal('unary'), USED(_sub(e, 'unary', 'expr'), n),
+           z3.If(k == z3.StringVal('group'), USED(_sub(e, 'group'), n),
+           z3.If(k == z3.StringVal('function'),
+                 z3.Or(n == V.s(MH.dget(V.dref(fn), z3.StringVal('name'))),
+                       z3.And(MH.dhas(V.dref(fn), z3.StringVal('args')), ARGS_USED(args, n, MH.llen(V.lref(args))))),
+                 False)))))
+
+
+def args_used_step(args, n, k):
+    return ARGS_USED(args, n, k + 1) == z3.Or(ARGS_USED(args, n, k), USED(MH.lget(V.lref(args), k), n))
+
+
+def stmt_used(st, n):
+    """the name occurs in the expression a statement evaluates (expression statements, conditional jumps, returns)"""
+    ex = mget(st, 'expr')
+    jm = mget(st, 'jump')
+    rt = mget(st, 'return')
+    return z3.Or(z3.And(mhas(st, 'expr'), USED(mget(ex, 'expr'), n)),
+                 z3.And(mhas(st, 'jump'), mhas(jm, 'expr'), USED(mget(jm, 'expr'), n)),
+                 z3.And(mhas(st, 'return'), mhas(rt, 'expr'), USED(mget(rt, 'expr'), n)))
+
+
+def stmts_used_step(stmts, n, k):
+    return STMTS_USED(stmts, n, k + 1) == z3.Or(STMTS_USED(stmts, n, k), stmt_used(MH.lget(V.lref(stmts), k), n))
+
+
 def key_of(e):
     return MH.dkey(V.dref(e), 0)
 
@@ -114,7 +152,12 @@ class GetExprUses(ModelFn):
                 ('model-frozen', frozen(h))]
 
     def axioms(self, K):
-        return expr_axioms(K.term(0))
+        n = z3.String('n!ud')
+        e = K.term(0)
+        fn = _sub(e, 'function')
+        args = MH.dget(V.dref(fn), z3.StringVal('args'))
+        return expr_axioms(e) + [('USED-def', z3.ForAll([n], USED(e, n) == used_def(e, n))),
+                                 ('ARGS_USED-base', z3.ForAll([n], z3.Not(ARGS_USED(args, n, 0))))]
 
     def havoc_heap(self, ip, h0):
         K = ip.ctx.ghost.get('callview')
@@ -126,16 +169,35 @@ class GetExprUses(ModelFn):
 
     def post(self, K, out):
         h1 = K.heap_after
+        n = z3.String('n!up')
+        u = V.dref(K.term(1))
         return self.never_raises(out) + [('C18.model-unmodified', frozen(h1)),
-                                         ('uses-still-a-dict', fresh_dict(h1, K.term(1), None))]
+                                         ('uses-still-a-dict', fresh_dict(h1, K.term(1), None)),
+                                         ('C18.uses-only-grow', z3.ForAll([n], z3.Implies(K.heap.dhas(u, n), h1.dhas(u, n)))),
+                                         ('C18.every-name-the-expression-reads-is-recorded',
+                                          z3.ForAll([n], z3.Implies(USED(K.term(0), n), h1.dhas(u, n))))]
 
     @property
     def loop_specs(self):
         def inv(L):
             K = L.ctx.ghost['K']
             h = L.heap
-            return [('model-frozen', frozen(h)), ('uses', fresh_dict(h, K.term(1), None))]
-        return {(self.qual, 0): LoopSpec(inv, heap='havoc', mk_heap=masked_fresh)}
+            n = z3.String('n!ui')
+            u = V.dref(K.term(1))
+            args = MH.dget(V.dref(_sub(K.term(0), 'function')), z3.StringVal('args'))
+            return [('model-frozen', frozen(h)), ('uses', fresh_dict(h, K.term(1), None)),
+                    ('uses-only-grow', z3.ForAll([n], z3.Implies(K.heap.dhas(u, n), h.dhas(u, n)))),
+                    ('function-name-recorded', h.dhas(u, V.s(MH.dget(V.dref(_sub(K.term(0), 'function')), z3.StringVal('name'))))),
+                    ('index-range', z3.And(L.k >= 0, L.k <= MH.llen(V.lref(args)))),
+                    ('names-read-by-the-arguments-so-far-are-recorded', z3.ForAll([n], z3.Implies(ARGS_USED(args, n, L.k), h.dhas(u, n))))]
+
+        def lem(L):
+            K = L.ctx.ghost['K']
+            n = z3.String('n!ul')
+            args = MH.dget(V.dref(_sub(K.term(0), 'function')), z3.StringVal('args'))
+            return [z3.ForAll([n], args_used_step(args, n, L.k)),
+                    z3.Implies(z3.And(L.k >= 0, L.k < MH.llen(V.lref(args))), WFEXPR(MH.lget(V.lref(args), L.k)))]
+        return {(self.qual, 0): LoopSpec(inv, heap='havoc', mk_heap=masked_fresh, lemmas=lem)}
 
 
 GET_EXPR_USES = GetExprUses()
@@ -159,7 +221,9 @@ class GetAssignsUses(ModelFn):
 
     def axioms(self, K):
         s = K.term(0)
-        return [('WFSTMTS-def', z3.Implies(WFSTMTS(s), wfstmts_def(s)))]
+        n = z3.String('n!sb')
+        return [('WFSTMTS-def', z3.Implies(WFSTMTS(s), wfstmts_def(s))),
+                ('STMTS_USED-base', z3.ForAll([n], z3.Not(STMTS_USED(s, n, 0))))]
 
     def apply(self, ip, args, kwargs):
         self._dicts = [args[1], args[2]]
@@ -170,20 +234,36 @@ class GetAssignsUses(ModelFn):
 
     def post(self, K, out):
         h1 = K.heap_after
+        n = z3.String('n!sp')
+        u = V.dref(K.term(2))
+        stmts = K.term(0)
         return self.never_raises(out) + [('C18.model-unmodified', frozen(h1)),
-                                         ('dicts-still-dicts', z3.And(fresh_dict(h1, K.term(1), None), fresh_dict(h1, K.term(2), None)))]
+                                         ('dicts-still-dicts', z3.And(fresh_dict(h1, K.term(1), None), fresh_dict(h1, K.term(2), None))),
+                                         ('C18.uses-only-grow', z3.ForAll([n], z3.Implies(K.heap.dhas(u, n), h1.dhas(u, n)))),
+                                         ('C18.every-name-a-statement-reads-is-recorded',
+                                          z3.ForAll([n], z3.Implies(STMTS_USED(stmts, n, MH.llen(V.lref(stmts))), h1.dhas(u, n))))]
 
     @property
     def loop_specs(self):
         def inv(L):
             K = L.ctx.ghost['K']
             h = L.heap
-            return [('model-frozen', frozen(h)), ('assigns', fresh_dict(h, K.term(1), None)), ('uses', fresh_dict(h, K.term(2), None))]
+            n = z3.String('n!si')
+            u = V.dref(K.term(2))
+            stmts = K.term(0)
+            return [('model-frozen', frozen(h)), ('assigns', fresh_dict(h, K.term(1), None)), ('uses', fresh_dict(h, K.term(2), None)),
+                    ('index-range', z3.And(L.k >= 0, L.k <= MH.llen(V.lref(stmts)))),
+                    ('uses-only-grow', z3.ForAll([n], z3.Implies(K.heap.dhas(u, n), h.dhas(u, n)))),
+                    ('names-read-by-the-statements-so-far-are-recorded',
+                     z3.ForAll([n], z3.Implies(STMTS_USED(stmts, n, L.k), h.dhas(u, n))))]
 
         def lem(L):
             K = L.ctx.ghost['K']
-            st = MH.lget(V.lref(K.term(0)), L.k)
-            return [z3.Implies(z3.And(L.k >= 0, L.k < MH.llen(V.lref(K.term(0)))), z3.And(WFSTMT(st), wfstmt_def(st)))]
+            n = z3.String('n!sl')
+            stmts = K.term(0)
+            st = MH.lget(V.lref(stmts), L.k)
+            return [z3.Implies(z3.And(L.k >= 0, L.k < MH.llen(V.lref(stmts))), z3.And(WFSTMT(st), wfstmt_def(st))),
+                    z3.ForAll([n], stmts_used_step(stmts, n, L.k))]
         return {(self.qual, 0): LoopSpec(inv, heap='havoc', lemmas=lem, mk_heap=masked_fresh)}
 
 
@@ -252,6 +332,120 @@ def lint_lemmas(ordinal):
     return lem
 
 
+def scan_maps_empty(ctx, events):
+    """the assignment/use scans of a scope start from empty maps (else indices of another scope leak into the
+    used-before-assignment and unused-variable warnings)"""
+    k = z3.String('k!ce')
+    obs = []
+    calls = [ev for ev in events if ev.get('kind') == 'call' and ev.get('callee') == GET_ASSIGNS_USES.qual]
+    for ix, e in enumerate(calls):
+        hb = e['heap_before']
+        for pos, what in ((1, 'assigns'), (2, 'uses')):
+            d = ctx.to_term(e['args'][pos])
+            obs.append((f'C18.scan{ix}-{what}-map-is-empty-at-the-head-of-its-scope',
+                        z3.And(is_dict(d), hb.dnk(V.dref(d)) == 0, z3.ForAll([k], z3.Not(hb.dhas(V.dref(d), k))))))
+    return obs
+
+
+LABEL_LOOPS = {1: ('statement', 'labels_defined', 'labels_used'), 5: ('fn_statement', 'fn_labels_defined', 'fn_labels_used')}
+WARN_LOOPS = {3: ('fn_var_assigns', 'fn_var_uses', 'Unused variable "', 'var_name'),
+              6: ('fn_labels_defined', 'fn_labels_used', 'Unused label "', 'label'), 7: ('fn_labels_used', 'fn_labels_defined', 'Unknown label "', 'label'),
+              8: ('labels_defined', 'labels_used', 'Unused global label "', 'label'),
+              9: ('labels_used', 'labels_defined', 'Unknown global label "', 'label')}
+
+
+def names_label(ctx, last, prefix, lab):
+    """the appended warning is a string that starts with <prefix><label>" — decided on the shape of the term when the
+    f-string is a concatenation (no string solving), otherwise left to the solver"""
+    t = z3.simplify(V.s(z3.simplify(last)))
+    goal = z3.And(is_str(last), z3.PrefixOf(z3.Concat(z3.StringVal(prefix), lab, z3.StringVal('"')), V.s(last)))
+    if z3.is_app(t) and t.decl().kind() == z3.Z3_OP_SEQ_CONCAT:
+        parts = []
+
+        def flat(x):
+            if z3.is_app(x) and x.decl().kind() == z3.Z3_OP_SEQ_CONCAT:
+                for c in x.children():
+                    flat(c)
+            else:
+                parts.append(x)
+        flat(t)
+        def is_label(x):
+            # the label itself, or the f-string rendering of a value whose string is the label (names are strings: dict
+            # keys and the label fields of a schema-valid model)
+            x = z3.simplify(x)
+            if x.eq(z3.simplify(lab)):
+                return True
+            if z3.is_app(x) and x.decl().kind() == z3.Z3_OP_ITE and z3.simplify(x.arg(1)).eq(z3.simplify(lab)):
+                return True
+            if z3.is_app(x) and x.decl().name().startswith('FMT_') and z3.simplify(V.s(x.arg(0))).eq(z3.simplify(lab)):
+                return True
+            return False
+        if len(parts) >= 3 and z3.is_string_value(parts[0]) and parts[0].as_string() == prefix and \
+                is_label(parts[1]) and z3.is_string_value(parts[2]) and parts[2].as_string().startswith('"'):
+            return z3.BoolVal(True)
+    return goal
+
+
+def label_step_spec(n):
+    """One-iteration specifications of the label bookkeeping (C18 exactness): the statement loops add exactly the label
+    defined / the label jumped to by the statement at hand and warn exactly for a redefinition; the reporting loops warn for
+    exactly the names missing from the other map and name them. With the maps empty at the head of every scope (entry
+    checks) and sorted(d.keys()) enumerating the keys of d (assumed), induction over the loops (meta-theorem) gives: the
+    unknown-label warnings of a scope are exactly the jump targets without a definition in that scope, the unused-label
+    warnings exactly the definitions nothing jumps to, the redefinition warnings exactly the repeated definitions."""
+    tag = f'model.lint_script.loop{n}'
+
+    def check(L, events):
+        ctx = L.ctx
+        begin = next((e for e in reversed(ctx.ghost.get('events', [])) if e.get('kind') == 'loop-body-begin' and e.get('loop') == tag), None)
+        if begin is None:
+            return [('C18.loop-head-state-recorded', z3.BoolVal(False))]
+        hh, envh = begin['heap'], begin['env']
+        h = L.heap
+        name = z3.String('n!ls')
+
+        def t0(nm):
+            return ctx.to_term(envh[nm])
+        W0, W = t0('warnings'), L.term('warnings')
+        wlen0, wlen = hh.llen(V.lref(W0)), h.llen(V.lref(W))
+        obs = [('C18.warnings-list-is-the-same-object', W == W0)]
+        if n in LABEL_LOOPS:
+            stname, dn, un = LABEL_LOOPS[n]
+            st = L.term(stname)
+            D0, U0, D, U = t0(dn), t0(un), L.term(dn), L.term(un)
+            is_label, is_jump = mhas(st, 'label'), mhas(st, 'jump')
+            scope = z3.Not(mhas(st, 'function')) if n == 1 else z3.BoolVal(True)
+            lab = V.s(mget(st, 'label'))
+            jl = V.s(mget(mget(st, 'jump'), 'label'))
+            dr, ur = V.dref(D), V.dref(U)
+            obs += [
+                ('C18.label-maps-are-the-same-objects', z3.And(D == D0, U == U0)),
+                ('C18.defined-labels-grow-by-exactly-this-label-statement', z3.Implies(scope, z3.ForAll(
+                    [name], h.dhas(dr, name) == z3.Or(hh.dhas(dr, name), z3.And(is_label, name == lab))))),
+                ('C18.used-labels-grow-by-exactly-this-jump', z3.Implies(scope, z3.ForAll(
+                    [name], h.dhas(ur, name) == z3.Or(hh.dhas(ur, name), z3.And(is_jump, name == jl))))),
+                ('C18.a-label-statement-warns-iff-it-redefines-the-label',
+                 z3.Implies(is_label, wlen == wlen0 + z3.If(hh.dhas(dr, lab), 1, 0))),
+                ('C18.a-jump-statement-never-warns', z3.Implies(is_jump, wlen == wlen0)),
+            ]
+        else:
+            src, other, prefix, var = WARN_LOOPS[n]
+            S_, O_ = L.term(src), L.term(other)
+            lab = V.s(L.term(var))
+            missing = z3.Not(hh.dhas(V.dref(O_), lab))
+            last = h.lget(V.lref(W), wlen0)
+            obs += [
+                ('C18.reporting-leaves-the-label-maps-alone', z3.ForAll([name], z3.And(
+                    h.dhas(V.dref(S_), name) == hh.dhas(V.dref(S_), name), h.dhas(V.dref(O_), name) == hh.dhas(V.dref(O_), name)))),
+                ('C18.warns-exactly-for-a-name-missing-from-the-other-map', wlen == wlen0 + z3.If(missing, 1, 0)),
+                ('C18.the-warning-names-the-label',
+                 z3.BoolVal(True) if z3.is_int_value(z3.simplify(wlen - wlen0)) and z3.simplify(wlen - wlen0).as_long() == 0
+                 else z3.Implies(missing, names_label(ctx, last, prefix, lab))),
+            ]
+        return obs
+    return check
+
+
 class LintScript(ModelFn):
     qual = 'model.lint_script'
     branch_timeout_ms = 400      # feasibility checks that do not answer quickly are treated as feasible (sound)
@@ -277,6 +471,7 @@ class LintScript(ModelFn):
         if out.kind == 'return':
             r = K.ctx.to_term(out.value)
             obs.append(('C18.returns-a-fresh-list-of-warnings', z3.And(is_list(r), V.lref(r) >= h0.alloc, V.lref(r) < h1.alloc)))
+        obs += scan_maps_empty(K.ctx, K.ctx.ghost.get('events', []))
         return obs
 
     @property
@@ -284,10 +479,43 @@ class LintScript(ModelFn):
         def frame_inv(L):
             K = L.ctx.ghost['K']
             return lint_typing(L) + [('frame', sp_.frame_same(K.heap, L.heap, K.heap.alloc))]
+        def entry(names):
+            # exactness of the redefinition/unknown/unused warnings starts from bookkeeping that is empty at the head of
+            # every scope: the global statement list (loop 1) and each function body (loop 5)
+            def check(L):
+                h = L.heap
+                k = z3.String('k!le')
+                out = []
+                for name in names:
+                    if not L.has(name):
+                        out.append((f'C18.{name}-exists-at-the-head-of-its-scope', z3.BoolVal(False)))
+                        continue
+                    d = L.term(name)
+                    out.append((f'C18.{name}-is-empty-at-the-head-of-its-scope',
+                                z3.And(is_dict(d), h.dnk(V.dref(d)) == 0, z3.ForAll([k], z3.Not(h.dhas(V.dref(d), k))))))
+                return out
+            return check
+        entries = {1: entry(['functions_defined', 'labels_defined', 'labels_used']),
+                   5: entry(['fn_labels_defined', 'fn_labels_used'])}
+        body_checks = {n: label_step_spec(n) for n in (3, 5, 6, 7, 8, 9)}
+        step1 = label_step_spec(1)
+        body_checks[1] = lambda L, events: scan_maps_empty(L.ctx, events) + step1(L, events)
         return {(self.qual, n): LoopSpec(frame_inv, heap='havoc', lemmas=lint_lemmas(n), mk_heap=masked_fresh,
-                                         trusted_invariant=True)
+                                         trusted_invariant=True, entry_check=entries.get(n),
+                                         body_check=body_checks.get(n))
                 for n in range(10)}
 
 
+import os as _os
+with open(_os.path.join(_os.path.dirname(_os.path.dirname(_os.path.abspath(__file__))), 'native', 'witness', 'lint_scope_witness.py'),
+          encoding='utf-8') as _fh:
+    LINT_SCOPE_WITNESS = _fh.read()
+LintScript.native_witness = {'is-empty-at-the-head-of-its-scope': LINT_SCOPE_WITNESS, 'C18.defined-labels-grow': LINT_SCOPE_WITNESS,
+                             'C18.used-labels-grow': LINT_SCOPE_WITNESS, 'C18.warns-exactly-for-a-name-missing': LINT_SCOPE_WITNESS,
+                             'C18.a-label-statement-warns-iff': LINT_SCOPE_WITNESS}
+GetExprUses.native_witness = {'C18.every-name-the-expression-reads-is-recorded': LINT_SCOPE_WITNESS,
+                              'names-read-by-the-arguments-so-far-are-recorded': LINT_SCOPE_WITNESS}
+GetAssignsUses.native_witness = {'C18.every-name-a-statement-reads-is-recorded': LINT_SCOPE_WITNESS,
+                                 'names-read-by-the-statements-so-far-are-recorded': LINT_SCOPE_WITNESS}
 LINT_SCRIPT_IMPL = LintScript()
 LINT_SCRIPT_IMPL.callee_contracts = {GET_ASSIGNS_USES.qual: GET_ASSIGNS_USES, IS_POINTLESS.qual: IS_POINTLESS}
